@@ -370,6 +370,16 @@ func runFault(cs caseSpec) (o outcome) {
 			got := 0
 			buf := make([]byte, 1<<16)
 			exp := make([]byte, 1<<16)
+			if victim.hello {
+				// a second fault of the pair made OnOpen answer: its reply precedes the flood
+				victim.hello = false
+				hello := make([]byte, 5)
+				_ = victim.c.SetReadDeadline(time.Now().Add(bound))
+				if _, err := readFull(victim.c, hello); err != nil || string(hello) != "HELLO" {
+					verr = fmt.Errorf("the reply of OnOpen did not arrive first: %q, %v", hello, err)
+					got = floodSize
+				}
+			}
 			for got < floodSize {
 				_ = victim.c.SetReadDeadline(time.Now().Add(bound))
 				n, err := victim.c.Read(buf)
@@ -385,6 +395,9 @@ func runFault(cs caseSpec) (o outcome) {
 					verr = fmt.Errorf("after %d of %d bytes: %v", got, floodSize, err)
 					break
 				}
+			}
+			if cs.Second != nil && cs.Second.Setup == "peer-close" {
+				victim.c.Close() // the second fault of the pair strikes when the peer leaves
 			}
 		}
 	} else if victim != nil {
